@@ -98,6 +98,8 @@ def run(chk, replay=None):
             "SetField = header MID/UID and the first integer field of the command structure (via reflect)",
             "AndX chains of more than one command are not encoded by the library and are not covered",
             "dispatch rows for which MS-CIFS defines no message but the library returns a structure are drift, not violations"]
+        # ---- the same entry points called by 8 goroutines at once (race-detector build): results as when called alone
+        vlib.parallel_callers(chk, "smb")
     finally:
         shutil.rmtree(d, ignore_errors=True)
 
